@@ -184,7 +184,10 @@ func init() {
 
 type clockSink struct{ lines []string }
 
-func (s *clockSink) Write(b []byte) (int, error) { s.lines = append(s.lines, string(b)); return len(b), nil }
+func (s *clockSink) Write(b []byte) (int, error) {
+	s.lines = append(s.lines, string(b))
+	return len(b), nil
+}
 
 func wallClockCases() [][2]string {
 	out := [][2]string{{"", ""}}
